@@ -393,7 +393,8 @@ def process_candidates(prop, engine, sim, cands, outdir, seed, tier, max_new=4):
                    plan=replay, results=rf.get('results'))
         os.makedirs(os.path.join(VERIF, 'replays'), exist_ok=True)
         h = hashlib.sha256(json.dumps([cls, sig]).encode()).hexdigest()[:8]
-        path = os.path.join(VERIF, 'replays', '%s-%d-%s.json' % (prop, seed, h))
+        path = os.path.join(VERIF, 'replays', '%s-%d-%s-%s.json' % (
+            prop, seed, os.path.basename(os.path.dirname(sim)), h))
         with open(path, 'w') as f:
             json.dump(doc, f, indent=1)
         # Replay the file in a fresh process: must fail the same way.
